@@ -89,5 +89,20 @@ func runC40(c *Ctx) []Obligation {
 	out = append(out,
 		c.whoMayCall(P, "unsafe-delete.callers", "(*crypto/keys.dbKeybase).UnsafeDelete", []string{`\(\*?crypto/keys\.lazyKeybase\)\.UnsafeDelete`, `app/cmd/cli\..*`, `app\..*`}, "the passphrase-free deletion is not reachable from the passphrase-taking keybase operations"),
 	)
+	// the key that protects the armor is derived from the passphrase exactly as given — every byte of it,
+	// nothing trimmed, folded or normalised — with the same cost parameters when locking and unlocking, the
+	// stored salt when unlocking, and a key that failed to authenticate the ciphertext yields no key
+	kdf := func(salt string) string {
+		return `^golang\.org/x/crypto/scrypt\.Key\(conv<\[\]byte>\(passphrase\), ` + salt + `, 32768, 8, 1, 32\)$`
+	}
+	out = append(out, c.Rows([]Row{
+		{Prop: P, ID: "kdf.lock-uses-the-passphrase-as-given", Fn: "crypto/keys/mintkey.encryptPrivKey",
+			Target: CallTo(`^golang\.org/x/crypto/scrypt\.Key\(`).Except(kdf(`github\.com/tendermint/tendermint/crypto\.CRandBytes\(16\)`)), Why: "locking derives the key from the passphrase bytes and a fresh random salt"},
+		{Prop: P, ID: "kdf.unlock-uses-the-passphrase-as-given", Fn: "crypto/keys/mintkey.decryptPrivKey",
+			Target: CallTo(`^golang\.org/x/crypto/scrypt\.Key\(`).Except(kdf(`saltBytes`)), Why: "unlocking derives the key from the passphrase bytes and the stored salt, with the same parameters"},
+		{Prop: P, ID: "kdf.only-derivation", Fn: "crypto/keys/mintkey.encryptPrivKey", Target: CallTo(`EncryptAESGCM\(`).Except(`^crypto/keys/mintkey\.EncryptAESGCM\(golang\.org/x/crypto/scrypt\.Key\(conv<\[\]byte>\(passphrase\), .*\)#0, `), Why: "the armor is sealed under the derived key"},
+		{Prop: P, ID: "kdf.unlock-opens-with-derived-key", Fn: "crypto/keys/mintkey.decryptPrivKey", Target: CallTo(`DecryptAESGCM\(`).Except(`^crypto/keys/mintkey\.DecryptAESGCM\(golang\.org/x/crypto/scrypt\.Key\(conv<\[\]byte>\(passphrase\), saltBytes, 32768, 8, 1, 32\)#0, encBytes\)$`), Why: "and opened under the key derived the same way"},
+		{Prop: P, ID: "kdf.unlock-auth-failure-yields-no-key", Fn: "crypto/keys/mintkey.decryptPrivKey", Assume: []Lit{T(`^nonnil\(crypto/keys/mintkey\.DecryptAESGCM\(.*\)#1\)$`)}, Target: Success(), Why: "a passphrase whose key does not authenticate the ciphertext returns an error, not a key"},
+	})...)
 	return out
 }
